@@ -73,7 +73,7 @@ def fields_index(fx):
 
 
 def check(ctx, fx, prefix="C01", table=TABLE, fn_opts=FN_OPTS, callee_releases=CALLEE_RELEASES,
-          family="worklist"):
+          family="worklist", floor_fns=10):
     R_PAIR = prefix + ".lock.pairing"
     R_GUARD = prefix + ".lock.guarded-by"
     ctx.rule(R_PAIR, "every lock acquisition (lock(), successful try_lock(), RAII guard) is released exactly once on "
@@ -95,21 +95,38 @@ def check(ctx, fx, prefix="C01", table=TABLE, fn_opts=FN_OPTS, callee_releases=C
                 if f.get("cls") == cls and f["kind"] == "inst":
                     fns[f["key"]] = f
         ctx.floor("functions touching lock-protected state of " + cls, len(fns), 2)
+        helper_fns = set()
+        results = {}
         for key, f in sorted(fns.items()):
             if f.get("ctor") or f.get("dtor"):
                 continue
             fn = ctx.fn(f)
             opts = fn_opts.get(f["qn"], {})
             assume = []
+            is_helper = False
             if "assume_param_lock" in opts:
                 assume = [f["params"][0]["n"] + opts["assume_param_lock"]]
-            res = L.analyse(fn, assume_held=assume, callee_releases=callee_releases)
+            if f["name"] in row.get("helpers", {}) and row["lock"]:
+                # private helper documented to run under the lock of its own object: analysed with the lock
+                # assumed held; every call site is checked below
+                assume = [row["lock"]]
+                is_helper = True
+                helper_fns.add(f["qn"])
+            res = L.analyse(fn, assume_held=assume, callee_releases=callee_releases,
+                            returns_holding=assume if is_helper else ())
+            results[key] = (fn, res)
             total_fns += 1
             site = f["qn"]
             # pairing
             probs = [(k, p, lk) for (k, p, lk) in res.problems
                      if not (k == "held-at-exit" and lk in [L.norm(a) for a in assume])]
-            if assume:
+            if is_helper:
+                # runs entirely under the caller's lock and returns holding it
+                probs = [(k, p, lk) for (k, p, lk) in probs if not (k == "held-at-exit" and lk == L.norm(assume[0]))]
+                for st in res.exit_states:
+                    if L.norm(assume[0]) not in st:
+                        probs.append(("helper-releases-callers-lock", None, L.norm(assume[0])))
+            elif assume:
                 # the assumed lock must be released at every exit
                 for st in res.exit_states:
                     for a in assume:
@@ -156,4 +173,16 @@ def check(ctx, fx, prefix="C01", table=TABLE, fn_opts=FN_OPTS, callee_releases=C
                     ctx.ob(R_GUARD, site, not bad,
                            "; ".join("%s value accessed without the lock at %s" % (need, fn.loc(p)) for p, need in bad[:4]),
                            fn.loc(), row["lock"] + ".value", fnkey=f["key"])
-    ctx.floor(family + " functions analysed by the LOCK rules", total_fns, 10)
+        # helpers that assume the lock: every call site inside the class's functions holds it
+        for key, (fn, res) in results.items():
+            for pos, e in fn.events(lambda e: e.get("k") == "call" and e.get("fn") in helper_fns):
+                recv = e.get("recv")
+                base = L.norm(S(recv, fn.aliases())) if recv is not None else ""
+                if base in ("this", "*this", None):
+                    base = ""
+                need = L.norm((base + "." if base else "") + row["lock"])
+                sts = res.states_at.get(pos, set())
+                ok = bool(sts) and all(need in st for st in sts)
+                ctx.ob(R_GUARD, fn.qn, ok, "helper %s called without %s held at %s" % (e.get("name"), need, fn.loc(pos)),
+                       fn.loc(pos), "call:" + e.get("name", ""), fnkey=fn.key)
+    ctx.floor(family + " functions analysed by the LOCK rules", total_fns, floor_fns)
